@@ -6,7 +6,9 @@ res = {}
 for l in open(os.path.join(root, 'matrix.txt')):
     m = re.match(r'(\S+) (C\d+) rc=(\d+) violations=(\d+) :: (.*)', l)
     if m:
-        res.setdefault(m.group(1), []).append((m.group(2), int(m.group(3)), int(m.group(4)), m.group(5).strip()))
+        # a change may have been run more than once (after a check was strengthened): the last verdict counts
+        res.setdefault(m.group(1), {})[m.group(2)] = (m.group(2), int(m.group(3)), int(m.group(4)), m.group(5).strip())
+res = {k: list(v.values()) for k, v in res.items()}
 out = ["# Seeded changes and the checks that catch them", "",
        "Each directory holds `patch.diff` (apply with `git -C /repo apply`), the author's demonstration (`demo.c`, `run_demo.sh <tree>`), the author's `README.md` and `meta.json` (what it needs to manifest, how I confirmed it).",
        "None of these changes is ever committed to /repo. The table is the output of `gen/seeded_matrix.sh` (quick tier).", "",
@@ -23,6 +25,7 @@ for d in sorted(os.listdir(root)):
     first = re.sub(r"^\d+\s+", "", first)[:140]
     out.append("| %s | %s | %s | %s | %s / %s | %s | %s |" % (d, m['change'], m['needs_to_manifest'], c['suite_with_change'], c['clean_tree_demo_exit'], c['demo_exit_with_change'], verd, first.replace("|", "/")))
 caught = sum(1 for d, v in res.items() if any(rc == 1 for _, rc, _, _ in v))
-out += ["", "%d of %d seeded changes are reported as VIOLATION by at least one quick check." % (caught, len(res))]
+own = sum(1 for d, v in res.items() if any(rc == 1 and p == d.split('-')[0] for p, rc, _, _ in v))
+out += ["", "%d of %d seeded changes are reported as VIOLATION by at least one quick check; %d of them by the check of the property they attack." % (caught, len(res), own)]
 open(os.path.join(root, 'README.md'), 'w').write("\n".join(out) + "\n")
 print(out[-1])
